@@ -229,12 +229,14 @@ class Air(object):
         return None
 
 
-def activate(tag, transit=None):
-    """the real nfcpy tag object talking to `tag` through `Air`"""
+def activate(tag, transit=None, ndef_system=False):
+    """the real nfcpy tag object talking to `tag` through `Air`; `ndef_system`: the tag was found by polling for
+    the NDEF system code 12FCh (tag.sys == 0x12FC), else for FFFFh with the answer 88B4h"""
     import nfc.clf
     import nfc.tag.tt3
     air = Air(tag, transit)
-    target = nfc.clf.RemoteTarget("212F", sensf_res=bytearray(b"\x01" + tag.idm + tag.pmm + b"\x88\xB4"))
+    target = nfc.clf.RemoteTarget("212F", sensf_res=bytearray(b"\x01" + tag.idm + tag.pmm +
+                                                             (b"\x12\xFC" if ndef_system else b"\x88\xB4")))
     t = nfc.tag.tt3.activate(air, target)
     return air, t
 
@@ -244,3 +246,28 @@ def key_block(key16):
     CK1 = first eight password bytes as a little-endian word's most significant byte first"""
     key16 = bytes(key16)
     return bytes(reversed(key16[0:8])) + bytes(reversed(key16[8:16]))
+
+
+def store_ndef(blocks, message, nbr=4, nbw=1, nmaxb=13, rwflag=1, writef=0):
+    """lay an NDEF message out on the card content `blocks` (dict number -> 16 octets): SYS_OP of MC, the attribute
+    block with its checksum, the data blocks (NFC Forum Type 3 Tag operation)"""
+    mc = bytearray(blocks[0x88])
+    mc[3] = 1
+    blocks[0x88] = bytes(mc)
+    attr = bytearray([0x10, nbr, nbw, nmaxb >> 8, nmaxb & 255, 0, 0, 0, 0, writef, rwflag]) + len(message).to_bytes(3, "big")
+    blocks[0] = bytes(attr + sum(attr).to_bytes(2, "big"))
+    data = bytes(message) + bytes(-len(message) % 16)
+    for i in range(len(data) // 16):
+        blocks[1 + i] = data[16 * i:16 * i + 16]
+    return blocks
+
+
+def ndef_of(blocks):
+    """the NDEF message a card with this content presents, None when the attribute block is not valid"""
+    a = bytes(blocks[0])
+    if (blocks[0x88][3] & 1) != 1 or sum(a[0:14]) != int.from_bytes(a[14:16], "big") or a[0] >> 4 != 1:
+        return None
+    nbr, nmaxb, ln = a[1], int.from_bytes(a[3:5], "big"), int.from_bytes(a[11:14], "big")
+    if ln > nmaxb * 16 or nbr == 0 or 1 + (ln + 15) // 16 > 15:
+        return None
+    return b"".join(bytes(blocks[n]) for n in range(1, 1 + (ln + 15) // 16))[:ln]
